@@ -314,8 +314,20 @@ pub fn judge(directed: bool, strkeys: bool, generic: Option<&G>, result: &Result
 // Document generation
 // ---------------------------------------------------------------------------
 
+thread_local! {
+    /// 0: String keys are "k<i>"; 1 / 2: long keys of mixed-width UTF-8 whose
+    /// character boundaries fall on odd / even byte offsets (code that slices or
+    /// truncates a key at a fixed byte position hits the middle of a character)
+    static LONGKEYS: std::cell::Cell<u8> = const { std::cell::Cell::new(0) };
+}
+
 fn key_g(k: u8, strkeys: bool) -> G {
     if strkeys {
+        match LONGKEYS.with(|c| c.get()) {
+            1 => return G::Str(format!("x{}{}", "é".repeat(14), k)),
+            2 => return G::Str(format!("{}語{}", "é".repeat(13), k)),
+            _ => {}
+        }
         G::Str(format!("k{}", k))
     } else {
         G::Int(k as i128)
@@ -363,7 +375,7 @@ pub fn edge_lists(n: usize, l: usize) -> Vec<Vec<(K, K)>> {
 fn atoms(strkeys: bool) -> Vec<G> {
     let mut v = vec![G::Int(0), G::Int(1), G::Int(-1), G::Int(300), G::Str("a".into()), G::Null, G::Bool(true), G::Float(1.5), G::Arr(vec![]), G::Map(vec![])];
     if strkeys {
-        v.push(G::Str("k0".into()));
+        v.push(key_g(0, true));
     }
     v
 }
@@ -720,6 +732,31 @@ pub fn sweep(job: &Job, out: &mut Out) {
             }
         }
     }
+    // (f) long String keys of mixed-width UTF-8 (both boundary parities): valid
+    // documents, every single structural fault, every prefix
+    for lk in [1u8, 2] {
+        LONGKEYS.with(|c| c.set(lk));
+        for (n, l) in [(1usize, 1usize), (2, 2)] {
+            for conns in edge_lists(n, l) {
+                let doc = valid_doc(n, &conns, true);
+                for json in [true, false] {
+                    let enc = encode(&doc, json);
+                    cx.case("longkey-valid", "valid document with long mixed-width keys", true, json, &enc);
+                    if conns.len() <= 1 {
+                        for cut in 0..enc.len() {
+                            cx.case("longkey-prefix", &format!("first {} bytes", cut), true, json, &enc[..cut]);
+                        }
+                    }
+                }
+                for (desc, fd) in &single_faults(&doc, n, true) {
+                    for json in [true, false] {
+                        cx.case("longkey-fault", desc, true, json, &encode(fd, json));
+                    }
+                }
+            }
+        }
+    }
+    LONGKEYS.with(|c| c.set(0));
     // (e) large documents (more nodes than any small-collection threshold):
     // chain / cycle / fan-out / fan-in, every single structural fault, every prefix
     let sizes: &[usize] = if thorough { &[17, 24, 33, 40] } else { &[20] };
